@@ -414,6 +414,7 @@ func Drive(id, tier string, seed uint64, replayFile string) int {
 	attributed, unattributed := 0, 0
 	seenRace := map[string]bool{}
 	var unattribKeys []string
+	var unattribSamples []string
 	for _, r := range raceReports {
 		if seenRace[r.Key] {
 			continue
@@ -426,6 +427,13 @@ func Drive(id, tier string, seed uint64, replayFile string) int {
 			unattributed++
 			if len(unattribKeys) < 20 {
 				unattribKeys = append(unattribKeys, r.Key)
+			}
+			if len(unattribSamples) < 3 {
+				t := r.Text
+				if len(t) > 2500 {
+					t = t[:2500]
+				}
+				unattribSamples = append(unattribSamples, t)
 			}
 		}
 	}
@@ -565,6 +573,7 @@ func Drive(id, tier string, seed uint64, replayFile string) int {
 		cov["race_reports_attributed"] = attributed
 		cov["race_reports_unattributed"] = unattributed
 		cov["unattributed_race_reports"] = unattribKeys
+		cov["unattributed_race_report_samples"] = unattribSamples
 	}
 	if e, ok := p.(Exhaustive); ok {
 		ex, note := e.ExhaustiveNote(tier)
